@@ -54,6 +54,11 @@ pub struct Scn {
     pub cache: bool,
     pub threads: usize,
     pub clients: Vec<Cl>,
+    /// the IPv4 entries of the blacklist are written in their IPv4-mapped IPv6 spelling
+    /// (`::ffff:a.b.c.d`, the form in which a server listening on [::] logs its IPv4 clients):
+    /// the same addresses, so the same clients are listed
+    #[serde(default)]
+    pub list_mapped: bool,
 }
 
 const FILE_BYTES: &[u8] = b"FILE-CONTENT-secret-0123456789";
@@ -103,7 +108,7 @@ impl Prop for C19 {
         }
     }
     fn rule(&self) -> &'static str {
-        "One case = the whole server started from a generated Config (blacklist mode block/forbidden x list empty / the client's address / others, IPv4, IPv6, or IPv4 clients on a dual-stack [::] listener x routes of all four types: file, directory, proxy to a scripted upstream, redirect x cache on/off x 1..4 threads) and 1..3 clients connecting from chosen source addresses (loopback, private, documentation ranges; IPv6) sending 1..4 keep-alive requests each on routed paths (a file route; a directory route: a file in it, a sub-directory without and with the trailing slash, a missing file; a proxy route; a redirect route) and unrouted paths with X-Forwarded-For absent or listing listed/unlisted addresses (',' or ', ' separators, several entries, sometimes with an entry that is not an address among them, one request in twelve with a chain of 31..200 mostly unlisted entries); a history dimension: an unlisted client warms the cache for the path a listed client then asks. Distinct = distinct (mode, listedness of peer and of each forwarded entry, route kind, position in the connection, cache state, outcome); non-trivial = the blacklist is non-empty and at least one request involves a listed address."
+        "One case = the whole server started from a generated Config (blacklist mode block/forbidden x list empty / the client's address / others, IPv4 (one case in five written in the IPv4-mapped spelling ::ffff:a.b.c.d), IPv6, or IPv4 clients on a dual-stack [::] listener x routes of all four types: file, directory, proxy to a scripted upstream, redirect x cache on/off x 1..4 threads) and 1..3 clients connecting from chosen source addresses (loopback, private, documentation ranges; IPv6) sending 1..4 keep-alive requests each on routed paths (a file route; a directory route: a file in it, a sub-directory without and with the trailing slash, a missing file; a proxy route; a redirect route) and unrouted paths with X-Forwarded-For absent or listing listed/unlisted addresses (',' or ', ' separators, several entries, sometimes with an entry that is not an address among them, one request in twelve with a chain of 31..200 mostly unlisted entries); a history dimension: an unlisted client warms the cache for the path a listed client then asks. Distinct = distinct (mode, listedness of peer and of each forwarded entry, route kind, position in the connection, cache state, outcome); non-trivial = the blacklist is non-empty and at least one request involves a listed address."
     }
     fn assumptions(&self) -> Vec<String> {
         vec![
@@ -114,7 +119,7 @@ impl Prop for C19 {
         ]
     }
     fn expected_counters(&self) -> Vec<&'static str> {
-        vec!["c19.xff_with_unparseable_entry", "c19.xff_chain_of_32_or_more", "c19.dual_stack_listener", "c19.block_mode", "c19.forbidden_mode", "c19.listed_peer_requests", "c19.forged_xff_by_listed_peer", "c19.unlisted_peer_forwarding_listed", "c19.all_unlisted_requests", "c19.ipv6_runs", "c19.cache_on", "c19.kind.file", "c19.kind.dir", "c19.kind.dir-sub-redirect", "c19.kind.dir-index", "c19.kind.dir-missing", "c19.kind.proxy", "c19.kind.redirect", "c19.kind.unrouted", "c19.cache_warmed_then_listed"]
+        vec!["c19.xff_with_unparseable_entry", "c19.blacklist_entries_in_ipv4_mapped_spelling", "c19.xff_chain_of_32_or_more", "c19.dual_stack_listener", "c19.block_mode", "c19.forbidden_mode", "c19.listed_peer_requests", "c19.forged_xff_by_listed_peer", "c19.unlisted_peer_forwarding_listed", "c19.all_unlisted_requests", "c19.ipv6_runs", "c19.cache_on", "c19.kind.file", "c19.kind.dir", "c19.kind.dir-sub-redirect", "c19.kind.dir-index", "c19.kind.dir-missing", "c19.kind.proxy", "c19.kind.redirect", "c19.kind.unrouted", "c19.cache_warmed_then_listed"]
     }
     fn real_vs_stub(&self) -> (Vec<&'static str>, Vec<&'static str>) {
         (vec!["humphrey_server::server::server::main (whole), verify_connection, file/directory/redirect/proxy handlers, blacklist_check, cache, Logger + monitor thread, humphrey::App, Address::from_headers, proxy_request"], vec!["TCP with arbitrary peer addresses, threads, clocks (humsim)", "upstream and clients are harness reference implementations", "std::fs real"])
@@ -182,7 +187,7 @@ impl Prop for C19 {
         sim.cpu_tick_max_ns = Some(1000);
         sim.max_decisions = 400_000;
         let dual_stack = !v6 && Rng::new(humsim::rng::mix(&[run_seed(seed, "C19", idx), 0xC19_0002])).chance(1, 4);
-        serde_json::to_value(Scn { sim, v6, dual_stack, mode: if rng.chance(1, 2) { "block" } else { "forbidden" }.into(), list, cache: rng.chance(1, 2), threads: rng.range(1, 4) as usize, clients }).unwrap()
+        serde_json::to_value(Scn { sim, v6, dual_stack, mode: if rng.chance(1, 2) { "block" } else { "forbidden" }.into(), list, cache: rng.chance(1, 2), threads: rng.range(1, 4) as usize, clients, list_mapped: !v6 && Rng::new(humsim::rng::mix(&[run_seed(seed, "C19", idx), 0xC19_0005])).chance(1, 5) }).unwrap()
     }
 
     fn execute(&self, scenario: &Value) -> RunResult {
@@ -225,7 +230,7 @@ impl Prop for C19 {
                 ],
             },
             cache: CacheConfig { size_limit: if scn.cache { 1 << 20 } else { 0 }, time_limit: 60 },
-            blacklist: BlacklistConfig { list: list.clone(), mode: if scn.mode == "block" { BlacklistMode::Block } else { BlacklistMode::Forbidden } },
+            blacklist: BlacklistConfig { list: list.iter().map(|a| match a { IpAddr::V4(v4) if scn.list_mapped => IpAddr::V6(v4.to_ipv6_mapped()), a => *a }).collect(), mode: if scn.mode == "block" { BlacklistMode::Block } else { BlacklistMode::Forbidden } },
             logging: humphrey_server::config::LoggingConfig { level: humphrey_server::logger::LogLevel::Warn, console: false, file: None },
             ..Config::default()
         };
@@ -303,6 +308,9 @@ impl Prop for C19 {
         rr.absorb(&outcome);
         let _ = std::fs::remove_dir_all(&dir);
         rr.count(if scn.mode == "block" { "c19.block_mode" } else { "c19.forbidden_mode" }, 1);
+        if scn.list_mapped && !scn.list.is_empty() {
+            rr.count("c19.blacklist_entries_in_ipv4_mapped_spelling", 1);
+        }
         if scn.v6 {
             rr.count("c19.ipv6_runs", 1);
         }
